@@ -191,6 +191,16 @@ def run(prop, tier, replay=None):
             reg_viol, reg_requests = RG.method_dispatch_violations(prop, scratch, harness, seed)
             for key, v in sorted(reg_viol.items(), key=str):
                 print("VIOLATION property=%s replay=%s  (%s; +%d similar)" % (prop, C.write_replay(prop, "DispatchMethod-%s-%s" % (key[1], key[2]), v), v["what"], v["more"]))
+        ws_sessions = 0
+        if prop == "C01" and not replay:
+            # "routing sets no other field", on a stream: the path variable of a WebSocket binding sets its field on the first
+            # message of the session and on no later one (WsSession engine, binding /wp/{t}/bidi)
+            from . import wssession as WS
+            wv, wstat, _ = WS.violations(prop, tier, scratch, harness, seed)
+            ws_sessions = wstat["sessions"]
+            for key, v in sorted(wv.items(), key=str):
+                reg_viol[("ws",) + tuple(str(k) for k in key)] = v
+                print("VIOLATION property=%s replay=%s  (%s; +%d similar)" % (prop, C.write_replay(prop, "wssession-%d" % (abs(hash(str(key))) % 100000), v), v["what"], v["more"]))
         nviol = 0
         for fid, n in sorted(known.items()):
             f = next(x for x in findings if x["id"] == fid)
